@@ -2,11 +2,12 @@
 # usage: tools/collect_mutants.sh Cxx [extra checks...]: copy /tmp/mut-Cxx/seeded/* to /verif/seeded/Cxx-k and run the checks
 p="$1"; shift
 here="$(cd "$(dirname "$0")/.." && pwd)"
-for d in /tmp/mut-$p/seeded/*/; do
+src="${MUTDIR:-/tmp/mut-$p}"
+for d in "$src"/seeded/*/; do
   k=$(basename "$d")
-  dst="$here/seeded/$p-$k"
+  dst="$here/seeded/$p-${IDPREFIX:-}$k"
   mkdir -p "$dst"
   cp "$d"/patch.diff "$d"/demo.py "$d"/meta.json "$dst"/ 2>/dev/null
-  echo "=== $p-$k: $(python3 -c "import json;print(json.load(open('$dst/meta.json')).get('summary','')[:150])")"
+  echo "=== $p-${IDPREFIX:-}$k: $(python3 -c "import json;print(json.load(open('$dst/meta.json')).get('summary','')[:150])")"
   "$here/tools/try_mutant.sh" "$dst" "$p" "$@" | tee "$dst/result.txt"
 done
